@@ -448,6 +448,7 @@ def run(chk):
     deabstract.run(chk)
     from lib import sectionend
     sectionend.run(chk)
+    sectionend.run_identity(chk)
     return chk.finish(
         level="other",
         explanation=("Capture/replay coverage rules over BaseBuilder in /repo's current source: each node-creating override is replayed by "
